@@ -187,6 +187,12 @@ def convertsColour (pi : String) (samples : Nat) : Bool :=
 /-- pydicom refuses a data set whose Rows or Columns is 0 or above 65535 (VR US; `'Rows' value of '70000' is invalid`) -/
 def shapeInRange (rows cols : Nat) : Bool := decide (1 ≤ rows ∧ rows ≤ 65535 ∧ 1 ≤ cols ∧ cols ≤ 65535)
 
+/-- colour-by-plane to colour-by-pixel (pydicom's `reshape_pixel_array` for Planar Configuration 1): sample `c` of pixel `k`
+    is item `c * npix + k` of the stored values (`R1 R2 .. G1 G2 .. B1 B2 ..` -> `R1 G1 B1 R2 G2 B2 ..`).  Applied only to
+    exactly `samples * npix` values (the length check of `pydicomNative` precedes it), so the default is never taken. -/
+def interleavePlanes (npix samples : Nat) (vals : List Int) : List Int :=
+  (List.range npix).flatMap (fun k => (List.range samples).map (fun c => vals.getD (c * npix + k) 0))
+
 /-- route 2: pydicom on a one-frame data set with native pixel data.  Fewer bytes than
     `rows*cols*samples*bits/8` are refused; one padding byte is tolerated; longer data is outside the
     model (pydicom then guesses a number of frames) and reported as `.other`. -/
@@ -199,7 +205,9 @@ def pydicomNative (conv : List Int → List Int) (p : Params) (rows cols samples
   else if bytes.length < want then .error .value
   else if bytes.length > want + 1 then .error .other
   else
-    let vals := decodeCells dt.itemsize (p.pixelRepresentation == 1) p.bitsStored.toNat n bytes
+    let cells := decodeCells dt.itemsize (p.pixelRepresentation == 1) p.bitsStored.toNat n bytes
+    -- Planar Configuration 1 (colour-by-plane): pydicom re-orders the planes into pixels
+    let vals := if samples > 1 ∧ p.planar = some 1 then interleavePlanes (rows * cols) samples cells else cells
     .ok (if convertsColour p.pi samples then conv vals else vals)
 
 /-- `decode_frame`: the values of the decoded frame in C order (shape `(rows, cols[, samples])`, dtype
